@@ -79,6 +79,53 @@ def gen_samekeys(r: random.Random, n_threads: int) -> list[list[dict]]:
     return out
 
 
+SHARED_ML = "'shared first line\\nshared second line\\n  third'"
+SHARED_LS = "{ english='one\\ntwo', german='eins\\nzwei' }"
+
+
+def pipe_text(depth: int, tag: int) -> str:
+    """a script that uses the SAME multi-line string literals as the other pipeline scripts, at block depth `depth`"""
+    ind = lambda d: "    " * (d + 1)  # noqa
+    body = ""
+    for d in range(depth):
+        body += f"{ind(d)}if ($P{tag} == {d}) {{\n"
+    for k in range(12):          # many writes of the shared literals: the window is one statement wide
+        body += f"{ind(depth)}message_Notice({SHARED_ML.replace('third', 'third ' + str(k % 3))});\n"
+    body += f"{ind(depth)}message_Talk({SHARED_ML});\n{ind(depth)}own_{tag}({tag}, {SHARED_ML});\n{ind(depth)}message_Mail({SHARED_LS});\n"
+    for d in reversed(range(depth)):
+        body += f"{ind(d)}}}\n"
+    return f"def 0 {{\n{body}    t_{tag}({SHARED_ML});\n    end;\n}}\n"
+
+
+def gen_pipeline_case(r: random.Random, i: int, sched: bool, pipe_rs: dict[int, dict]) -> dict:
+    """compile -> decompile pipelines: every thread compiles its own script once and then decompiles the compiled OBJECTS again and again;
+    the scripts share equal multi-line constant / language strings at different block depths (objects shared between compile results
+    would be written concurrently).  pipe_rs: depth -> routine-set JSON of the compiled script (for the references)"""
+    n = r.choice([3, 4]) if sched else r.choice([4, 6, 8])
+    depths = r.sample(sorted(pipe_rs), min(n, len(pipe_rs)))
+    reps = 3 if sched else r.choice([10, 20])
+    threads = [[{"kind": "compile", "text": pipe_text(d, d), "lookup": [], "store": "p"}] + [{"kind": "decompile", "rs": pipe_rs[d], "obj": "p"}] * reps for d in depths]
+    if sched:
+        # yield points only where parameters and statements are written: the threads meet in the writers, not in the graph passes
+        return {"threads": threads, "mode": "sched", "seed": r.randint(0, 10**9), "p_switch": r.choice([0.05, 0.1, 0.3]), "warm": False, "antlr": False,
+                "trace_only": [os.path.join("simple_ops", "simple.py"), "switch_start.py", "message_switches_cases.py", "ssb_decompiler.py"],
+                "budget_s": 150, "instrument": False, "flavour": "pipeline"}
+    return {"threads": threads, "mode": "free", "switchinterval": 1e-6, "warm": False, "budget_s": 150, "instrument": False, "flavour": "pipeline"}
+
+
+def gen_project_case(r: random.Random, pools: c11.Pools, i: int, sched: bool) -> dict:
+    """files of ONE project on disk (relative './x' and '../x' imports, transitive imports, the same relative names in different directories)
+    compiled concurrently, a thread's top-level file being what another thread's file imports"""
+    gs = [g for g in pools.graphs if g and "project" in g[0]]
+    g = [c for c in r.choice(gs) if not c.get("macros_only")]
+    n = r.choice([3, 4]) if sched else r.choice([4, 6, 8])
+    threads = [[copy.deepcopy(r.choice(g)) for _ in range(r.randint(2, 4))] for _ in range(n)]
+    if sched:
+        return {"threads": threads, "mode": "sched", "seed": r.randint(0, 10**9), "p_switch": r.choice([0.05, 0.2, 0.5]), "warm": False, "antlr": False,
+                "budget_s": 150, "instrument": False, "flavour": "project"}
+    return {"threads": threads, "mode": "free", "switchinterval": r.choice([1e-6, 1e-5]), "warm": False, "budget_s": 150, "instrument": False, "flavour": "project"}
+
+
 def gen_cold_case(r: random.Random, pools: c11.Pools, i: int) -> dict:
     """cold start: a fresh interpreter in which nothing of the implementation has been imported or run; its very first
     compile()/convert() calls are made by 6-8 threads at once (lazy initialisation, first-use caches, imports inside functions)"""
@@ -222,12 +269,17 @@ def check_run(case: dict, out: dict, refs: dict) -> list[dict]:
                     break
             if rows[ci].get("input_same") is False:
                 diffs.append({"thread": ti, "index": ci, "kind": "input_meaning_changed_by_decompile", "what": "the caller's routine set changed (beyond indent) during a concurrent convert()", "against": "-"})
+    pb, pa = out.get("process_before") or {}, out.get("process_after") or {}
+    for k in ("cwd",):          # (the recursion limit is raised by the import of graph_minimizer: compared in the compiler-only scenario)
+        if pb.get(k) != pa.get(k):
+            diffs.append({"thread": 0, "index": 0, "kind": "process_setting_changed_after_concurrent_calls",
+                          "what": f"after the concurrent calls the process-wide {k} is {pa.get(k)!r}, it was {pb.get(k)!r}", "against": "-"})
     return diffs
 
 
 def run(run: core.Run) -> int:
     quick = run.tier == "quick"
-    n_sched, n_free, n_instr, n_prog = (20, 20, 6, 24) if quick else (500, 400, 60, 100)
+    n_sched, n_free, n_instr, n_prog = (14, 14, 6, 24) if quick else (500, 400, 60, 100)
     jobs = core.jobs_for(run.tier)
     stamp0 = fresh.tree_stamp()
     inv = shared_inventory.inventory(core.REPO)
@@ -264,6 +316,25 @@ def run(run: core.Run) -> int:
     n_cold = (10 if quick else 100) + (20 if (object_like or lazy_like) else 0)
     cases = [gen_case(run.rng, pools, i, True) for i in range(n_sched)] + [gen_case(run.rng, pools, i, False) for i in range(n_free)]
     cases += [gen_cold_case(run.rng, pools, i) for i in range(n_cold)]
+    memo_like = any(x.startswith("memo|") for x in inv_new)
+    n_pipe = (4 if quick else 40) + (12 if (memo_like or object_like or lazy_like) else 0)
+    n_proj = (6 if quick else 60) + (14 if (setting_like or lazy_like) else 0)
+    # the pipeline scripts compiled alone (fresh processes): their routine sets are what the threads' decompile calls are compared on
+    pipe_rs: dict[int, dict] = {}
+    pcalls = {d: {"kind": "compile", "text": pipe_text(d, d), "lookup": []} for d in range(0, 9)}
+    for d, x in zip(pcalls, fresh.run_fresh_many([(c11.SESSION, {"calls": [pcalls[d]], "full": "all"}) for d in pcalls], jobs, timeout=120)):
+        if not fresh.failed(x) and "results" in x and x["results"][0].get("full", {}).get("ops") is not None:
+            full = x["results"][0]["full"]
+            refs[c11.spec_key(pcalls[d])] = x["results"][0]
+            pipe_rs[d] = {"infos": full["infos"], "coros": full["coros"], "ops": [[{"off": o["off"], "name": o["name"], "params": o["params"]} for o in rt] for rt in full["ops"]]}
+    extra = ([gen_pipeline_case(run.rng, i, i % 2 == 1, pipe_rs) for i in range(n_pipe)] if len(pipe_rs) >= 4 else []) \
+        + [gen_project_case(run.rng, pools, i, i % 3 == 2) for i in range(n_proj)]
+    # references of the calls these scenarios introduce (each alone in a fresh process)
+    need = {c11.spec_key(c): c for cs in extra for t in cs["threads"] for c in t if c11.spec_key(c) not in refs}
+    nk = list(need)
+    for k, x in zip(nk, fresh.run_fresh_many([(c11.SESSION, {"calls": [c11.alone(need[k])]}) for k in nk], jobs, timeout=120)):
+        refs[k] = x["results"][0] if not fresh.failed(x) and "results" in x else {"no_answer": True}
+    cases += extra
     instr = []
     for i in range(n_instr):
         c = gen_case(run.rng, pools, i, i % 3 != 2)
